@@ -173,6 +173,10 @@ Definition mon_block (dbg reach inv nopanic : bool) (b : blk) : list (N * N) :=
        | Some [f] => fails 8 2 (f =? from_scratch s)
        | _ => []
        end) ++
+      (match get tagL b with
+       | Some l => fails 14 3 (list_eqb l sl)      (* clone_from onto another state = the source state, earlier boards included *)
+       | None => []
+       end) ++
       fails 14 1 (forallb (fun bl => match bl with
                                      | i :: w => list_eqb w (enc_pbs (piece_board_for_step s i))
                                                  && (if i =? stp then list_eqb w (enc_pbs (board s)) else true)
